@@ -229,6 +229,10 @@ func (d *disconnectHandler) stop() {
 }
 
 func (e *kvElection) handleReconnect() {
+	// Cancel the grace timer first, through the disconnect handler's own mutex
+	// (lock order: handler mutex before election mutex, never the reverse).
+	e.disconnectHandler.stop()
+
 	e.mu.Lock()
 	defer e.mu.Unlock()
 
@@ -239,11 +243,6 @@ func (e *kvElection) handleReconnect() {
 
 	if e.cfg.Metrics != nil {
 		e.cfg.Metrics.SetConnectionStatus(1, e.getMetricsLabels())
-	}
-
-	if e.disconnectHandler.timer != nil {
-		e.disconnectHandler.timer.Stop()
-		e.disconnectHandler.timer = nil
 	}
 
 	if !e.isLeader.Load() {
